@@ -124,6 +124,97 @@ def _squash(s):
     return "".join(out)
 
 
+def _split_top(s, sep=","):
+    """split at top-level `sep` (outside (), [], {}, <> and string literals)"""
+    parts, depth, cur, j = [], 0, [], 0
+    while j < len(s):
+        c = s[j]
+        if c == '"':
+            k = j + 1
+            while k < len(s) and s[k] != '"':
+                if s[k] == "\\":
+                    k += 1
+                k += 1
+            cur.append(s[j:k + 1])
+            j = k + 1
+            continue
+        if c in "([{":
+            depth += 1
+        elif c in ")]}":
+            depth -= 1
+        if c == sep and depth == 0:
+            parts.append("".join(cur))
+            cur = []
+        else:
+            cur.append(c)
+        j += 1
+    parts.append("".join(cur))
+    return parts
+
+
+def _expand_macros(text):
+    """expand file-local `macro_rules!` with ONE rule, whose matcher is a comma-separated list of
+    `$name:fragment` (no repetitions) and whose invocations `name!(args);` / `name! { args }` are at top level:
+    the usual way of writing the identical impl blocks of the integer types once.  Anything fancier: fail closed."""
+    macros = {}
+    while True:
+        m = re.search(r"(?m)^macro_rules!\s*(\w+)\s*\{", text)
+        if not m:
+            break
+        end = _match_brace(text, m.end() - 1)
+        body = text[m.end():end - 1].strip()
+        mm = re.match(r"\(([^()]*)\)\s*=>\s*\{", body)
+        if not mm:
+            raise ExtractError("macro_rules! %s: unsupported matcher" % m.group(1))  # noqa: F821
+        bend = _match_brace(body, mm.end() - 1)
+        if body[bend:].strip().strip(";").strip():
+            raise ExtractError("macro_rules! %s: more than one rule" % m.group(1))  # noqa: F821
+        params = []
+        for prm in [x.strip() for x in mm.group(1).split(",") if x.strip()]:
+            pm = re.fullmatch(r"\$(\w+)\s*:\s*(ty|ident|expr|literal|tt|path)", prm)
+            if not pm:
+                raise ExtractError("macro_rules! %s: unsupported parameter %r" % (m.group(1), prm))  # noqa: F821
+            params.append(pm.group(1))
+        tmpl = body[mm.end():bend - 1]
+        if "$(" in tmpl or "$crate" in tmpl:
+            raise ExtractError("macro_rules! %s: repetitions / $crate unsupported" % m.group(1))  # noqa: F821
+        macros[m.group(1)] = (params, tmpl)
+        text = text[:m.start()] + text[end:]
+    for name, (params, tmpl) in macros.items():
+        while True:
+            m = re.search(r"(?m)^%s!\s*([({])" % re.escape(name), text)
+            if not m:
+                break
+            close = {"(": ")", "{": "}"}[m.group(1)]
+            depth, j = 0, m.end() - 1
+            while j < len(text):
+                if text[j] == m.group(1):
+                    depth += 1
+                elif text[j] == close:
+                    depth -= 1
+                    if depth == 0:
+                        break
+                j += 1
+            args = [a.strip() for a in _split_top(text[m.end():j])]
+            if args and args[-1] == "":
+                args.pop()
+            if len(args) != len(params):
+                raise ExtractError("%s!: %d arguments for %d parameters" % (name, len(args), len(params)))  # noqa: F821
+            out = tmpl
+            for prm, a in sorted(zip(params, args), key=lambda x: -len(x[0])):
+                out = re.sub(r"\$%s\b" % re.escape(prm), lambda _m, a=a: a, out)
+            if "$" in out:
+                raise ExtractError("%s!: unexpanded metavariable" % name)  # noqa: F821
+            k = j + 1
+            if text[k:k + 1] == ";":
+                k += 1
+            # impl blocks must start at the beginning of a line for `_impls`
+            import textwrap
+            out = textwrap.dedent(out)
+            text = text[:m.start()] + out + text[k:]
+    return text
+
+
 def _impls(text):
     """[(trait, type, body)] of every top-level `impl` block; anything else at top level must be
     `use`, `lazy_static!{...}`, attributes or the test module"""
@@ -205,6 +296,10 @@ def _check_native_iri(repo):
         raise ExtractError("_native_iri.rs: `impl Term for IriRef<T>` no longer has the expected kind()/iri()")  # noqa: F821
 
 
+# every way of saying "what `Display` prints": format!("{}", self), format!("{self}"), self.to_string(), wrapped by
+# MownStr::from(..) or .into()
+_DISPLAY_EXPR = r'(?:format!\("\{\}",self\)|format!\("\{self\}"\)|self\.to_string\(\))'
+LEX_DISPLAY_RE = re.compile(r'Some\((?:MownStr::from\(%s\)|%s\.into\(\))\)' % (_DISPLAY_EXPR, _DISPLAY_EXPR))
 LEX_DISPLAY = 'Some(MownStr::from(format!("{}",self)))'
 LEX_IDENT = "Some(MownStr::from(self))"
 LEX_BOOL = re.compile(r'Some\(MownStr::from\(if\*self\{"([^"\\]*)"\}else\{"([^"\\]*)"\}\)\)')
@@ -217,6 +312,16 @@ LEX_SPECIAL = re.compile(
 DATATYPE = re.compile(r"Some\(IriRef::new_unchecked\(MownStr::from_ref\(&(\w+)\)\)\)")
 TRY = re.compile(
     r'ifletSome\(lex\)=term\.lexical_form\(\)\{if((?:Term::eq\(&term\.datatype\(\)\.unwrap\(\),xsd::\w+\)(?:\|\|)?)+)'
+    r'\{lex\.parse\(\)\}else\{"([^"\\]*)"\.parse\(\)\}\}else\{"([^"\\]*)"\.parse\(\)\}')
+# the same skeleton with the datatype bound once:  let dt = term.datatype().unwrap();  Term::eq(&dt, xsd::N) || ...
+# (evaluated at the same point: after lexical_form() returned Some, before any comparison), or tested against an
+# array:  [xsd::a, xsd::b].iter().any(|d| Term::eq(&dt, *d))
+TRY_LET = re.compile(
+    r'ifletSome\(lex\)=term\.lexical_form\(\)\{let(\w+)=term\.datatype\(\)\.unwrap\(\);if((?:Term::eq\(&\1,xsd::\w+\)(?:\|\|)?)+)'
+    r'\{lex\.parse\(\)\}else\{"([^"\\]*)"\.parse\(\)\}\}else\{"([^"\\]*)"\.parse\(\)\}')
+TRY_ARRAY = re.compile(
+    r'ifletSome\(lex\)=term\.lexical_form\(\)\{let(\w+)=term\.datatype\(\)\.unwrap\(\);'
+    r'if\[((?:xsd::\w+,?)+)\]\.iter\(\)\.any\(\|(\w+)\|Term::eq\(&\1,\*\3\)\)'
     r'\{lex\.parse\(\)\}else\{"([^"\\]*)"\.parse\(\)\}\}else\{"([^"\\]*)"\.parse\(\)\}')
 ERRTY = {"f64": "std::num::ParseFloatError", "i32": "std::num::ParseIntError", "isize": "std::num::ParseIntError",
          "usize": "std::num::ParseIntError", "bool": "std::str::ParseBoolError"}
@@ -237,6 +342,7 @@ def extract_native(repo):
     if n_static != len(statics):
         raise ExtractError("%s: a lazy_static entry has an unexpected shape" % SRC)  # noqa: F821
 
+    text = _expand_macros(text)
     impls = _impls(text)
     if len(re.findall(r"\bimpl\b", text)) != len(impls):
         raise ExtractError("%s: an `impl` that is not a plain top-level `impl Trait for Type`" % SRC)  # noqa: F821
@@ -269,7 +375,7 @@ def extract_native(repo):
                 raise ExtractError("%s: datatype() has an unexpected shape" % where)  # noqa: F821
             dt = statics[m.group(1)]
             lf = fns["lexical_form"][1]
-            if lf == LEX_DISPLAY and ty != "str" and ty != "bool":
+            if LEX_DISPLAY_RE.fullmatch(lf) and ty != "str" and ty != "bool":
                 shape = ("display",)
             elif lf == LEX_IDENT and ty == "str":
                 shape = ("identity",)
@@ -289,10 +395,21 @@ def extract_native(repo):
             if sig != "<T:Term>(term:T)->Result<Self,Self::Error>":
                 raise ExtractError("%s: signature %s" % (where, sig))  # noqa: F821
             m = TRY.fullmatch(fb)
-            if not m:
+            m2 = TRY_LET.fullmatch(fb)
+            m3 = TRY_ARRAY.fullmatch(fb)
+            if m:
+                names = re.findall(r"xsd::(\w+)\)", m.group(1))
+                try_info[ty] = (names, m.group(2), m.group(3))
+            elif m2:
+                names = re.findall(r"xsd::(\w+)\)", m2.group(2))
+                try_info[ty] = (names, m2.group(3), m2.group(4))
+            elif m3:
+                names = re.findall(r"xsd::(\w+)", m3.group(2))
+                try_info[ty] = (names, m3.group(4), m3.group(5))
+            else:
                 raise ExtractError("%s: try_from_term body has an unknown shape" % where)  # noqa: F821
-            names = re.findall(r"xsd::(\w+)\)", m.group(1))
-            try_info[ty] = (names, m.group(2), m.group(3))
+            if not names:
+                raise ExtractError("%s: empty whitelist" % where)  # noqa: F821
     used = {dt for dt, _ in term_info.values()} | {n for ns, _, _ in try_info.values() for n in ns}
     missing = sorted(used - set(ns_names))
     if missing:
